@@ -2,6 +2,7 @@ package main
 
 import (
 	"fmt"
+	"os"
 	"go/constant"
 	"go/token"
 	"go/types"
@@ -323,7 +324,7 @@ func (e *Engine) load(st *State, l *Loc, t types.Type) Val {
 			}
 		}
 	}
-	for i := 0; i+1 < len(ls); i++ {
+	for i := 0; i+1 < len(ls) && os.Getenv("GOVC_NONILCANON") == ""; i++ {
 		if ls[i].Kind == LTag && ls[i+1].Kind == LData && v[i].Op == "select" && !v[i].hasBV {
 			e.fact(st, Implies(Eq(v[i], IntC(0)), Eq(v[i+1], IntC(0))))
 		}
